@@ -27,7 +27,8 @@ StyleTags == {"b", "u", "c1", "c2", "info", "comment", "question", "error"}
 \*      be taken for the name of a hidden / disabled command (the wrapper may cut any of them into pieces)
 AllCmds(c) == Below(c.cmds)
 Secret(x) == x.hidden \/ ~x.enabled
-Words(c) ==
+\* running text, parameter names, fixed words: what can appear on any page
+Texts(c) ==
   LET Txt(x) == Els(x.desc) \cup UNION {Els(par) : par \in Els(x.help)}
       AO(x) == UNION {{a.name} \cup Els(a.desc) \cup Els(a.dflt) : a \in Els(x.args)}
                \cup UNION {{o.long, o.vn} \cup Els(o.desc) \cup Els(o.dflt) : o \in Els(x.opts)}
@@ -35,12 +36,15 @@ Words(c) ==
      \cup UNION {{a.name} \cup Els(a.desc) \cup Els(a.dflt) : a \in Els(c.gargs)}
      \cup UNION {{o.long, o.vn} \cup Els(o.desc) \cup Els(o.dflt) : o \in Els(c.gopts)}
      \cup UNION {Txt(x) \cup AO(x) : x \in AllCmds(c)}
-     \cup UNION {{x.name} \cup Els(x.aliases) : x \in {y \in AllCmds(c) : ~Secret(y)}}
      \cup {"aliases:", "version", "(default:", "(multiple", "values", "allowed)", "USAGE", "ARGUMENTS", "COMMANDS",
            "AVAILABLE", "OPTIONS", "GLOBAL", "DESCRIPTION", "command", "arg", "or:", "The", "arguments", "of", "the", "to", "execute"}
-SecretNames(c) == UNION {{x.name} \cup Els(x.aliases) : x \in {y \in AllCmds(c) : Secret(y)}}
+\* ... and the command names the page of p may show: its own, those above it, the visible ones below it
+\* (leaf names may repeat elsewhere in the tree: `pkg add` hidden, `repo add` visible)
+PageNames(c, p) == OnPath(c, p) \cup VisibleBelow(c, p)
 HasPiece(w, n) == \E i \in 1..(Len(w) - Len(n) + 1) : SubSeq(w, i, i + Len(n) - 1) = n
-WellFormed(c) == \A n \in SecretNames(c) : \A w \in Words(c) : ~HasPiece(w, n)
+WellFormed(c) ==
+  \A tn \in 1..Len(Targets(c)) :
+     LET p == Targets(c)[tn] IN \A n \in Forbidden(c, p) : \A w \in Texts(c) \cup PageNames(c, p) : ~HasPiece(w, n)
 
 \* ---- keys that tell known defects apart
 \* known finding C13-style-tag-name: an argument named like a style tag (<info>, <b>, ...) is taken for one
